@@ -278,9 +278,9 @@ func verifyImage(res *caseResult, caseIdx int, img imgfs.Image, shards int, name
 	// why classifies a collision of a fresh id with recovered index entries: was the name that owned the id in the
 	// live run created after the last metadata flush that had completed at this image began (so that its dictionary
 	// entry / sequence was legitimately not durable, yet index entries mentioning its id were flushed)?
-	why := func(kind string, id uint32) string {
+	why := func(kind string, id uint32, scope ...string) string {
 		for _, n := range names {
-			if n.k.kind == kind && n.id == id {
+			if n.k.kind == kind && n.id == id && (len(scope) == 0 || n.k.scope == scope[0]) {
 				if !durable(n) {
 					return "index-entries-flushed-for-a-name-created-after-the-last-completed-metadata-flush-began"
 				}
@@ -345,7 +345,7 @@ func lookup(d *dbset, n ledgerName) (uint32, bool, error) {
 
 // freshRow creates the names of a brand-new row on the recovered databases and checks that none of the ids it
 // receives is already used by recovered dictionaries (observation map) or recovered index entries.
-func freshRow(o *observations, d *dbset, s int, row rowSpec, k int, label string, why func(kind string, id uint32) string, seenSeries map[string]bool) {
+func freshRow(o *observations, d *dbset, s int, row rowSpec, k int, label string, why func(kind string, id uint32, scope ...string) string, seenSeries map[string]bool) {
 	row.Metric = "fresh-" + row.Metric
 	for i := range row.Tags {
 		row.Tags[i][1] = "fresh-" + row.Tags[i][1]
@@ -358,6 +358,9 @@ func freshRow(o *observations, d *dbset, s int, row rowSpec, k int, label string
 	}
 	o.observe(97, "metric", row.NS, row.Metric, uint32(mid), o.tick(), o.tick())
 	metricCollided := false
+	if existed != nil {
+		seenSeries[fmt.Sprintf("fresh-metric-id/%d", mid)] = true
+	}
 	if existed != nil { // brand-new metric name: no index entry may know its id
 		for si := range d.idx {
 			ids, err := d.idx[si].GetSeriesIDsForMetric(mid)
@@ -420,7 +423,14 @@ func freshRow(o *observations, d *dbset, s int, row rowSpec, k int, label string
 	brandNew := !seenSeries[seriesKey]
 	seenSeries[seriesKey] = true
 	if brandNew && !metricCollided && before != nil && before.Contains(sid) {
-		o.fail("C09/fresh-id-already-used-by-index-entries/"+why("series", uint32(sid))+"/series", "image %d (after %q): new series %q of metric %d got id %d which the recovered index already lists", k, label, row.tagString(), mid, sid)
+		// series ids are per (shard, metric). When the metric id itself was handed out on this image (by this or an
+		// earlier fresh row), whoever owned that metric id in the live run was not recovered: the series dictionary
+		// entries of that owner are the index entries that collide, and the cause is the owner metric's durability.
+		cause := why("series", uint32(sid), fmt.Sprintf("shard=%d,metric=%d", s, mid))
+		if seenSeries[fmt.Sprintf("fresh-metric-id/%d", mid)] {
+			cause = why("metric", uint32(mid))
+		}
+		o.fail("C09/fresh-id-already-used-by-index-entries/"+cause+"/series", "image %d (after %q): new series %q of metric %d got id %d which the recovered index already lists", k, label, row.tagString(), mid, sid)
 	}
 	o.observe(97, "series", fmt.Sprintf("shard=%d,metric=%d", s, mid), row.tagString(), sid, o.tick(), o.tick())
 	for _, f := range row.Fields {
